@@ -101,4 +101,47 @@ theorem rfind_end_iff (s pat : Bytes) (h : pat.length ≤ s.length) (hs : s.leng
         | inr h1 => rw [h1]; simp; omega
   exact key _ rfl
 
+/-- `a + b` on `size_t` -/
+def uadd (a b : Nat) : Nat := (a + b) % 18446744073709551616
+
+/-- `s.find_first_of(c)` (from position 0): index of the first occurrence of the character, `npos` if none -/
+def findFirstOf (s : Bytes) (c : UInt8) : Nat :=
+  if s.any (fun x => x == c) then (s.takeWhile (fun x => x != c)).length else npos
+
+theorem take_takeWhile_length (p : UInt8 → Bool) (s : Bytes) : s.take (s.takeWhile p).length = s.takeWhile p := by
+  induction s with
+  | nil => rfl
+  | cons x r ih =>
+    simp only [List.takeWhile_cons]
+    split
+    · simp [ih]
+    · simp
+
+theorem drop_takeWhile_length (p : UInt8 → Bool) (s : Bytes) : s.drop (s.takeWhile p).length = s.dropWhile p := by
+  induction s with
+  | nil => rfl
+  | cons x r ih =>
+    simp only [List.takeWhile_cons, List.dropWhile_cons]
+    split
+    · simp [ih]
+    · simp
+
+theorem takeWhile_length_lt_of_any (c : UInt8) (s : Bytes) (h : s.any (fun x => x == c) = true) :
+    (s.takeWhile (fun x => x != c)).length < s.length := by
+  induction s with
+  | nil => simp at h
+  | cons x r ih =>
+    simp only [List.takeWhile_cons]
+    by_cases hx : x = c
+    · simp [hx]
+    · have hx' : (x != c) = true := by simpa using hx
+      simp only [hx', if_true, List.length_cons]
+      have : r.any (fun y => y == c) = true := by
+        simp only [List.any_cons, Bool.or_eq_true] at h
+        cases h with
+        | inl h => exact absurd (by simpa using h) hx
+        | inr h => exact h
+      have := ih this
+      omega
+
 end MpVerif.C11.StdStr
